@@ -637,7 +637,7 @@ func c14(run *ev.Run, tier string) {
 	// carries epoch, version and prerelease; without one the prerelease is the
 	// known C02/C15 finding and nothing is claimed here
 	var archChecked int64
-	for _, ep := range []string{"0", "1", "00", "12"} {
+	for _, ep := range []string{"0", "1", "00", "12", "010", "08", "4294967296", "202401011200"} { // zero padded = decimal; values beyond 32 bits are numbers too
 		for _, pre := range []string{"rc1", "beta.2", "rc-1"} {
 			for _, rel := range []string{"", "3"} {
 				run.Case(fmt.Sprintf("archlinux-components|epoch=%s|%s|rel=%s", ep, pre, rel), true)
@@ -651,7 +651,7 @@ func c14(run *ev.Run, tier string) {
 				}
 				p := dec.Decode("archlinux", res.Bytes, false)
 				got, _ := p.MetaGet("pkgver")
-				n, _ := strconv.Atoi(ep)
+				n, _ := strconv.ParseInt(ep, 10, 64)
 				r := rel
 				if r == "" {
 					r = "1"
